@@ -12,8 +12,10 @@ import (
 func init() { register("C10", propC10) }
 
 func propC10(c *Ctx) propInfo {
+	c.statelessCodecs("E17.stateless", excStateless, "tl", "liteclient")
 	c.guardPolarity("tl", "liteclient")
 	c.blockIDLayout()
+	c.freshDecodeTargets("E2.R-staleloop", "liteclient", "tl")
 	c.tlSchema()
 	c.tlPrimitives()
 	c.floor("E4b.tl-primitives", 25)
